@@ -17,7 +17,7 @@ inductive Full
   | panic
   | fetchErr                       -- "all shards requests failed"
   | ok (ids : List (ProxySearch.ID × Src)) (total nerr : Nat) (partialResp cold : Bool) (docs : List Doc)
-deriving Repr
+deriving Repr, DecidableEq
 
 /-- `Search` with `ShouldFetch`; `hint` is the hint every store attaches to its IDs (0 = none), `order` the order in
     which the per-source map of `FetchDocsStream` is visited, `behav` the per-source fetch behaviour -/
